@@ -14,7 +14,7 @@ from . import ty as T
 from . import ops
 from .ty import SINK, INT, BOOL, CHAR, NONE, SLICE, TStr, TList, TTuple, TOpt, TRec, TRef, TSet, TDict, TEnum, Ty
 from .dsl import CONTRACTS, SPECS, LEMMAS, Spec, Lemma, Contract
-from .dsl import implies as _implies, iff as _iff
+from .dsl import implies as _implies, iff as _iff, was as _was
 from .engine import (SDict, V, K, PyObj, STuple, BoundMethod, Unsupported, Stale, State, Obligation, Normalizer,
                      PURE_BUILTINS, PURE_METHODS, MUTATING_METHODS, none_v, mk_int, mk_bool, fresh, seq_arr,
                      seq_len, mk_seq, str_const, is_str, load_function, key_of, unwrap_callable, _is_logger_call)
@@ -512,6 +512,15 @@ class Executor:
     def subscript(self, st, base, idx):
         if isinstance(base, V) and base.ty == SINK:
             return fresh(SINK, "sinkitem")
+        from .dsl import DICT_CLASSES
+        if isinstance(base, V) and isinstance(base.ty, TRef) and base.ty.cls in DICT_CLASSES:
+            if not (isinstance(idx, K) and isinstance(idx.v, str) and has_field(base.ty.cls, idx.v)):
+                raise Unsupported(f"dict object {base.ty.cls} indexed by {idx!r}")
+            v = self.heap_get(st, base, idx.v)
+            if isinstance(v.ty, TOpt):
+                self.emit(st, "bounds", "dict-key", z3.Not(is_none(v)), note=f"KeyError {idx.v!r} otherwise")
+                return unwrap_opt(v)
+            return v
         sd = ops.sdict_of(base)
         if sd is not None:
             if not (isinstance(idx, K) and isinstance(idx.v, str)):
@@ -937,6 +946,10 @@ class Executor:
     def builtin(self, st, o, args, kwargs, node):
         if o in (int, str, bool, len, repr, list, tuple, sorted, min, max, abs) and any(isinstance(a, V) and a.ty == SINK for a in args):
             return fresh(SINK, "sinkfn") if o is not bool else V(BOOL, truthy(args[0]))
+        if o is _was:
+            from .stmts import OldRef
+            ns = args[0].o
+            return PyObj(OldRef(args[1], ns))
         if o is _implies:
             return V(BOOL, z3.Implies(truthy(args[0]), truthy(args[1])))
         if o is _iff:
@@ -1354,6 +1367,12 @@ class Executor:
             base = self.eval(st, base_node)
             idx = self.eval(st, target.slice)
             if isinstance(base, V) and base.ty == SINK:
+                return
+            from .dsl import DICT_CLASSES
+            if isinstance(base, V) and isinstance(base.ty, TRef) and base.ty.cls in DICT_CLASSES:
+                if not (isinstance(idx, K) and isinstance(idx.v, str) and has_field(base.ty.cls, idx.v)):
+                    raise Unsupported(f"dict object {base.ty.cls} store at {idx!r}")
+                self.heap_set(st, base, idx.v, val)
                 return
             sd = ops.sdict_of(base)
             if sd is not None:
